@@ -137,3 +137,44 @@ func DBModelS2() model.DatabaseModel {
 	}
 	return dbm
 }
+
+// SchemaS3: index configurations (C05, C06, C08b).
+const SchemaS3 = `{"name":"V","version":"1.0.0","tables":{
+ "Root":{"isRoot":true,"indexes":[["name"],["alt","num"]],"columns":{
+   "name":{"type":"string"},
+   "alt":{"type":"string"},
+   "num":{"type":"integer"},
+   "tag":{"type":{"key":"string","min":0,"max":1}},
+   "conf":{"type":{"key":"string","value":"string","min":0,"max":"unlimited"}}
+ }}}}`
+
+// Row3 maps SchemaS3's Root table.
+type Row3 struct {
+	UUID string            `ovsdb:"_uuid"`
+	Name string            `ovsdb:"name"`
+	Alt  string            `ovsdb:"alt"`
+	Num  int               `ovsdb:"num"`
+	Tag  *string           `ovsdb:"tag"`
+	Conf map[string]string `ovsdb:"conf"`
+}
+
+// ClientModelS3 returns the client model with the given client indexes.
+func ClientModelS3(indexes []model.ClientIndex) model.ClientDBModel {
+	cm, err := model.NewClientDBModel("V", map[string]model.Model{"Root": &Row3{}})
+	if err != nil {
+		panic("fix: " + err.Error())
+	}
+	if len(indexes) > 0 {
+		cm.SetIndexes(map[string][]model.ClientIndex{"Root": indexes})
+	}
+	return cm
+}
+
+// DBModelS3 builds the database model for SchemaS3 with the given client indexes.
+func DBModelS3(indexes []model.ClientIndex) model.DatabaseModel {
+	dbm, errs := model.NewDatabaseModel(MustSchema(SchemaS3), ClientModelS3(indexes))
+	if len(errs) > 0 {
+		panic("fix: " + errs[0].Error())
+	}
+	return dbm
+}
